@@ -71,6 +71,18 @@ def gen(draw):
         if sp["segments"]:
             specs.append(sp)
     case["read_specs"] = specs
+    # a second sample without reads (sometimes excluded with --sample), missing genotypes, a read-free second contig
+    case["second_sample"] = draw(st.sampled_from([None, None, "selected", "unselected"]))
+    case["missing"] = [vi for vi in range(n) if draw(st.integers(0, 14)) == 0] if draw(st.integers(0, 2)) == 0 else []
+    case["second_contig"] = draw(st.sampled_from([None, None, "selected", "unselected"]))
+    # genotyping errors at tri-allelic sites: the VCF genotype lacks an allele that the reads of a haplotype carry
+    case["gt_errors"] = {}
+    for vi, v in enumerate(variants):
+        al = [h[vi] for h in haps]
+        if v.get("alt2") and 2 in al and draw(st.integers(0, 2)) == 0:
+            new = [a if a != 2 else draw(st.integers(0, 1)) for a in al]
+            if len(set(new)) > 1:
+                case["gt_errors"][str(vi)] = new
     case["opts"] = {"B": draw(st.sampled_from([0, 1, 2, 3, 4, 4, 5])), # the ILP behind --use-prephasing takes minutes per case at ploidy 6: drawn for ploidy <= 5 only
                     "prephase": ploidy <= 5 and draw(st.integers(0, 5 if ploidy == 5 else 3)) == 0}
     return case
@@ -126,23 +138,71 @@ class PolyphasePart:
                     sid = variants[vi]["pos"] + 1 if sid is None else sid
                     ph[vi] = sid
             phased = {"s": {"chr1": ph}}
-        vcf = G.write_vcf(case, os.path.join(d, "in.vcf"), phased=phased)
-        bam = G.write_bam(case, reads, os.path.join(d, "reads.bam"))
+        kw = {}
+        wcase = case
+        if not phased and (case.get("second_sample") or case.get("missing") or case.get("second_contig") or case.get("gt_errors")):
+            # decorated input: written from explicit genotype strings
+            wcase = dict(case)
+            wcase["samples"] = ["s"] + (["t"] if case.get("second_sample") else [])
+            wcase["contigs"] = list(case["contigs"])
+            wcase["variants"] = dict(case["variants"])
+            gts = {"s": {"chr1": [G.gt_of(haps, vi) for vi in range(len(variants))]}}
+            for vi, new in case.get("gt_errors", {}).items():
+                gts["s"]["chr1"][int(vi)] = "/".join(map(str, sorted(new)))
+                ctx.label("genotype-lacks-an-allele-of-the-reads")
+            for vi in case.get("missing", []):
+                gts["s"]["chr1"][vi] = "/".join(["."] * ploidy)
+            if case.get("second_sample"):
+                gts["t"] = {"chr1": [G.gt_of(haps[::-1], vi) for vi in range(len(variants))]}
+                if case["second_sample"] == "unselected":
+                    kw["samples"] = ["s"]
+            if case.get("second_contig"):
+                wcase["contigs"].append({"name": "chr2", "seq": case["contigs"][0]["seq"][:120]})
+                wcase["variants"]["chr2"] = [{"pos": 30, "ref": case["contigs"][0]["seq"][30], "alt": "A" if case["contigs"][0]["seq"][30] != "A" else "C"},
+                                             {"pos": 70, "ref": case["contigs"][0]["seq"][70], "alt": "A" if case["contigs"][0]["seq"][70] != "A" else "C"}]
+                het = "/".join(["0"] * (ploidy - 1) + ["1"])
+                for smp in wcase["samples"]:
+                    gts[smp]["chr2"] = [het, het]
+                if case["second_contig"] == "unselected":
+                    kw["chromosomes"] = ["chr1"]
+            vcf = G.write_vcf(wcase, os.path.join(d, "in.vcf"), gts=gts)
+            ref = G.write_fasta(wcase["contigs"], os.path.join(d, "ref.fa"))
+            ctx.label("decorated-input")
+        else:
+            vcf = G.write_vcf(case, os.path.join(d, "in.vcf"), phased=phased)
+        bam = G.write_bam(wcase, reads, os.path.join(d, "reads.bam"))
         out = os.path.join(d, "out.vcf")
         buf = io.StringIO()
         with contextlib.redirect_stdout(buf), contextlib.redirect_stderr(buf):
             with open(out, "w") as fo:
                 run_polyphase([bam], vcf, ploidy, reference=ref, output=fo, block_cut_sensitivity=o["B"], threads=1,
-                              use_prephasing=o["prephase"], write_command_line_header=False)
+                              use_prephasing=o["prephase"], write_command_line_header=False, **kw)
         P.check_readable(out, "polyphase")
         ha, a = vm.read_vcf(vcf)
         hb, b = vm.read_vcf(out)
         for kind, msg in vm.diff_headers(ha, hb):
             ctx.violation("polyphase:" + kind, msg)
-        for kind, msg in vm.diff_records(a, b, ignore_format=("PS", "HP"), compare_gt="multiset"):
+        def untouched(sample, rec):
+            return (sample == "t" and case.get("second_sample") == "unselected" and not phased) or (
+                rec["chrom"] == "chr2" and case.get("second_contig") == "unselected" and not phased)
+        for kind, msg in vm.diff_records(a, b, ignore_format=("PS", "HP"), compare_gt="multiset", gt_exact_for=untouched, fmt_exact_for=untouched):
             ctx.violation("polyphase:" + kind, msg)
+        # sample t and contig chr2 have no reads: nothing there may be phased
+        for y in b:
+            for smp, c in y["samples"].items():
+                if (smp == "t" or y["chrom"] == "chr2") and c["phased"]:
+                    ctx.violation("polyphase:phased-without-reads", "%s:%d sample %s is phased (%r) although no read covers it" % (y["chrom"], y["pos"], smp, c["GT"]))
+                if c["phased"] and (c["GT"] is None or any(g is None for g in c["GT"])):
+                    ctx.violation("polyphase:phased-missing", "%s:%d sample %s: phased genotype with missing alleles %r" % (y["chrom"], y["pos"], smp, c["GT"]))
+        a = [x for x in a if x["chrom"] == "chr1"]
+        b = [y for y in b if y["chrom"] == "chr1"]
         # accessible (read-covered) heterozygous variants, recomputed from the read geometry
-        het = [vi for vi in range(len(variants)) if len({h[vi] for h in haps}) > 1]
+        # heterozygous according to the VCF the tool was given
+        def vcf_alleles(vi):
+            if wcase is not case and str(vi) in case.get("gt_errors", {}):
+                return case["gt_errors"][str(vi)]
+            return [h[vi] for h in haps]
+        het = [vi for vi in range(len(variants)) if len(set(vcf_alleles(vi))) > 1 and not (wcase is not case and vi in case.get("missing", []))]
         accessible = set()
         by_name = {}
         for r in reads:
